@@ -114,9 +114,12 @@ def analyse(rep: Report) -> None:
     specials: set[str] = set()
     mo = rep.repo.tree(MO)
     for n in ast.walk(mo):
-        if isinstance(n, ast.Assign) and norm(n.targets[0]) == 'SPECIAL_AST_VALUES' \
-                and isinstance(n.value, ast.Set):
-            specials = {e.value for e in n.value.elts if isinstance(e, ast.Constant)}
+        if isinstance(n, ast.Assign) and norm(n.targets[0]) == 'SPECIAL_AST_VALUES':
+            lit = n.value
+            if isinstance(lit, ast.Call) and norm(lit.func) in ('frozenset', 'set', 'tuple', 'list') and lit.args:
+                lit = lit.args[0]
+            if isinstance(lit, (ast.Set, ast.List, ast.Tuple)):
+                specials = {e.value for e in lit.elts if isinstance(e, ast.Constant)}
     if not specials:
         raise AnalysisError('SPECIAL_AST_VALUES not found in manifest_options.py')
     branch_vals = set()
@@ -147,6 +150,21 @@ def analyse(rep: Report) -> None:
         if isinstance(val, int):
             z.ints.add(v)
         z.facts.add(f'some:{v}')
+    # module-level constants (ONE_DAY = datetime.timedelta(days=1), numbers)
+    for st in tree.body:
+        if isinstance(st, ast.Assign) and len(st.targets) == 1 and isinstance(st.targets[0], ast.Name):
+            try:
+                v = dom.eval(st.value, z)
+            except Exception:
+                continue
+            lo, hi = dom.interval(v, z)
+            if lo == hi and abs(lo) != INF and v.base is None:
+                name = st.targets[0].id
+                z.add(name, ZERO, hi)
+                z.add(ZERO, name, -lo)
+                if v.isint:
+                    z.ints.add(name)
+                z.facts.add(f'some:{name}')
     z.add(OPT_START, 'now', 0)                       # explicit start <= now
     for o in ('options.timeShiftBufferDepth', 'options.minimumUpdatePeriod', 'options.leeway'):
         z.ints.add(o)
@@ -227,7 +245,8 @@ def analyse(rep: Report) -> None:
         verdict('R08.3', 'depth>=0', lo >= 0 and TS in s.ints, f'timeShiftBufferDepth in [{lo:g}, {hi:g}]',
                 f'timeShiftBufferDepth can be negative or non-integer (interval [{lo:g}, {hi:g}]): a '
                 'negative `depth` option is used as it is')
-        el_exact = s.aux.get(f'diff:{EL}') == ('now', AST_)
+        d_el = dom.diff_of(s, EL)
+        el_exact = d_el is not None and d_el[0] == 'now' and dom.same(s, d_el[1], AST_)
         if not el_exact:
             dlo, dhi = -dfl(AST_, 'now'), dfl('now', AST_)
             elo, ehi = s.bound(EL)
@@ -237,7 +256,8 @@ def analyse(rep: Report) -> None:
         verdict('R08.3', 'depth<=elapsed', dfl(TS, EL) <= 0, 'timeShiftBufferDepth - elapsedTime <= 0',
                 f'timeShiftBufferDepth <= elapsedTime is not implied (difference <= {dfl(TS, EL):g})')
         # R08.4
-        fat_def = s.aux.get(f'diff:{FAT}') == (EL, TS)
+        d_fat = dom.diff_of(s, FAT)
+        fat_def = d_fat is not None and dom.same(s, d_fat[0], EL) and dom.same(s, d_fat[1], TS)
         flo, _ = s.bound(FAT)
         verdict('R08.4', 'firstAvailableTime', fat_def and flo >= 0,
                 'elapsedTime - timedelta(seconds=timeShiftBufferDepth), >= 0',
